@@ -167,6 +167,17 @@ StateRecord(R, L) ==
      \* ApplyClientFiltering(cid, address): 4*who + 2*[own values] + [own services]
      ap |-> [i \in 1..Len(U.cids) |-> [j \in 1..Len(U.addrs) |->
                 EffCode(Effective(R, L, Global, U.cids[i], U.addrs[j]))]],
+     \* where the zone-less identifier decides for a zoned address (ZoneFallback): per
+     \* identifier / lookup address 0, or 1 + the answer WITHOUT that rule (for Apply:
+     \* 1 + the code); lets the harness compare these cells apart
+     zi |-> [i \in 1..Len(U.ids) |->
+                IF Kind(U.ids[i]) = "ip" /\ ZoneFallback(R, U.ids[i][2])
+                THEN 1 + NameIdx(ByAddrZoneStrict(R, L, U.ids[i][2]).name) ELSE 0],
+     za |-> [j \in 1..Len(U.addrs) |->
+                IF ZoneFallback(R, U.addrs[j]) THEN 1 + NameIdx(ByAddrZoneStrict(R, L, U.addrs[j]).name) ELSE 0],
+     zp |-> [i \in 1..Len(U.cids) |-> [j \in 1..Len(U.addrs) |->
+                IF ZoneFallback(R, U.addrs[j])
+                THEN 1 + EffCode(EffectiveZoneStrict(R, L, Global, U.cids[i], U.addrs[j])) ELSE 0]],
      \* Find(8-byte mac of the universe written with colons), IPv6 reading (0 for other ids)
      fx |-> [i \in 1..Len(U.ids) |->
                 IF Kind(U.ids[i]) = "mac" THEN NameIdx(FindMacTextV6(R, U.ids[i]).name) ELSE 0],
@@ -215,13 +226,14 @@ Precedence ==
       LET cid == q[1]  a == q[2]
           r   == Resolve(clients, leases, cid, a)
           byCid == cid # NoId /\ cid \in IdsOf(clients)
-          byIP  == <<"ip", a, 0>> \in IdsOf(clients)
+          exact == IF <<"ip", a, 0>> \in IdsOf(clients) THEN <<"ip", a, 0>> ELSE <<"ip", Bits(a), 0>>
+          byIP  == exact \in IdsOf(clients)
           nets  == {p \in IdsOf(clients) : Kind(p) = "net" /\ Contains(p, a)}
           mac   == LeaseOf(leases, a)
       IN
       /\ r = NoClient \/ r \in clients
       /\ byCid => cid \in r.ids
-      /\ ~byCid /\ byIP => <<"ip", a, 0>> \in r.ids
+      /\ ~byCid /\ byIP => exact \in r.ids
       /\ ~byCid /\ ~byIP /\ nets # {} =>
             \E p \in nets : p \in r.ids /\ \A p2 \in nets : p2[3] <= p[3]
       /\ ~byCid /\ ~byIP /\ nets = {} /\ mac # NoId /\ mac \in IdsOf(clients) => mac \in r.ids
